@@ -26,6 +26,7 @@ type HarnessDef struct {
 	ThoroughOnly bool       `json:"thorough_only"`
 	MaxPaths int            `json:"max_paths"`
 	MaxPreempt int          `json:"max_preempt"`
+	MapOrder   []string     `json:"map_order_fns"`
 }
 
 type PropDef struct {
@@ -128,7 +129,7 @@ func cmdRun(args []string) int {
 		if *tier == "thorough" {
 			e.Timeout = 60000
 		}
-		spec := explore.HarnessSpec{Name: h.Fn, Params: params, Solver: h.Solver, Sched: h.Sched, MaxPaths: h.MaxPaths, MaxPre: h.MaxPreempt}
+		spec := explore.HarnessSpec{Name: h.Fn, Params: params, Solver: h.Solver, Sched: h.Sched, MaxPaths: h.MaxPaths, MaxPre: h.MaxPreempt, MapOrder: h.MapOrder}
 		th := time.Now()
 		st, err := e.Run(spec)
 		if err != nil {
@@ -147,6 +148,9 @@ func cmdRun(args []string) int {
 			if !st.CoverHit[l] {
 				inconclusive = append(inconclusive, "VACUOUS cover "+l+" never satisfied")
 			}
+		}
+		if st.Completed == 0 && len(st.Cex) == 0 {
+			inconclusive = append(inconclusive, "VACUOUS no path of "+h.Fn+" ran to the end of the harness (every path failed an assumption)")
 		}
 		if len(st.AssertLabels) == 0 && len(st.Cex) == 0 {
 			inconclusive = append(inconclusive, "VACUOUS no assertion reached in "+h.Fn)
@@ -192,6 +196,9 @@ func cmdRun(args []string) int {
 		nw := len(vecs)
 		if !*noNative && native {
 			for _, c := range r.st.Cex {
+				if c.Status == "deadlock" {
+					continue
+				}
 				vecs = append(vecs, explore.NativeVector{Harness: c.Harness, Vars: c.Vars, Params: c.Params, Known: knownList})
 			}
 		}
@@ -219,8 +226,15 @@ func cmdRun(args []string) int {
 				validated++
 			}
 		}
-		for k, c := range r.st.Cex {
-			o := outs[nw+k]
+		vi := nw
+		for _, c := range r.st.Cex {
+			if c.Status == "deadlock" {
+				c.Native = "not replayed natively (a deadlock would hang the native test): re-executed concretely by the engine"
+				cexs = append(cexs, cexOut{c, false, false})
+				continue
+			}
+			o := outs[vi]
+			vi++
 			rep := (c.Status == "violation" && o.Status == "violation" && o.Label == c.Label) || (c.Status == "panic-escape" && o.Status == "panic")
 			c.Native = o.Status + " " + o.Label + " " + o.Msg
 			cexs = append(cexs, cexOut{c, rep, true})
